@@ -2,8 +2,8 @@
    framing driver, with their state nesting and delegation chains written out
    as in the code:
      General / Editor / Metadata / Difficulty / Events / Colors   (own parser only)
-     TimingPoints  : state {general, core};  parse_general -> General::parse_general
-     HitObjects    : state {timing_points, difficulty, events, core};
+     TimingPoints  : state {general, pending.., control_points};  parse_general -> General::parse_general
+     HitObjects    : state {timing_points, difficulty, events, last_object, curve_points, vertices, hit_objects};
                      parse_general -> TimingPoints::parse_general -> General::parse_general, ...
      Beatmap       : state {version, editor, metadata, colors, hit_objects};
                      parse_general/difficulty/events/timing_points/hit_objects -> HitObjects::..
@@ -62,22 +62,41 @@ Definition decode_colors (lines : list str) : ColorsState :=
 Definition tpg_of (g : GeneralState) : tp_general :=
   mkTPG (g_mode g) (g_default_sample_bank g) (g_default_sample_volume g).
 
-(* TimingPointsState = { general, pending.., control_points }.  The core keeps
-   a copy [ts_general] of the three General fields it reads; it is refreshed
-   whenever the General part changes. *)
-Record TPD := mkTPD { tpd_general : GeneralState; tpd_core : TPState }.
+(* TimingPointsState = { general, pending_control_points_time, pending_*,
+   control_points }, field for field.  Model/TimingPoints.v works on a
+   [TPState] that carries the three General fields it reads ([tp_general]);
+   [tpd_core] builds that view from the current General part (so the reads of
+   `state.general.mode` / `.default_sample_bank` / `.default_sample_volume`
+   are always those of the current state, as in the code) and
+   [tpd_with_core] stores the six fields parse_timing_points can write. *)
+Record TPD := mkTPD {
+  tpd_general : GeneralState;
+  tpd_time : F64;                         (* pending_control_points_time *)
+  tpd_pt : option TimingPoint;            (* pending_timing_point *)
+  tpd_pd : option DifficultyPoint;        (* pending_difficulty_point *)
+  tpd_pe : option EffectPoint;            (* pending_effect_point *)
+  tpd_ps : option SamplePoint;            (* pending_sample_point *)
+  tpd_cp : ControlPoints }.               (* control_points *)
 
-Definition core_with_general (c : TPState) (g : tp_general) : TPState :=
-  mkTS g (ts_time c) (ts_pt c) (ts_pd c) (ts_pe c) (ts_ps c) (ts_cp c).
+Definition tpd_core (s : TPD) : TPState :=
+  mkTS (tpg_of (tpd_general s)) (tpd_time s) (tpd_pt s) (tpd_pd s) (tpd_pe s) (tpd_ps s) (tpd_cp s).
 
-Definition tpd_create : TPD := mkTPD general_default (tp_init (tpg_of general_default)).
+Definition tpd_with_core (s : TPD) (c : TPState) : TPD :=
+  mkTPD (tpd_general s) (ts_time c) (ts_pt c) (ts_pd c) (ts_pe c) (ts_ps c) (ts_cp c).
+
+Definition tpd_with_general (s : TPD) (g : GeneralState) : TPD :=
+  mkTPD g (tpd_time s) (tpd_pt s) (tpd_pd s) (tpd_pe s) (tpd_ps s) (tpd_cp s).
+
+(* DecodeState::create: the pending time is 0.0, nothing pending, no points
+   (= [tp_init] seen through [tpd_core]) *)
+Definition tpd_create : TPD := mkTPD general_default D.zero None None None None cp_empty.
 
 Definition tpd_parse_general (s : TPD) (l : str) : TPD * res :=
   let '(g, r) := parse_general (tpd_general s) l in
-  (mkTPD g (core_with_general (tpd_core s) (tpg_of g)), r).
+  (tpd_with_general s g, r).
 
 Definition tpd_parse_timing_points (s : TPD) (l : str) : outcome (TPD * res) :=
-  obind (parse_timing_points (tpd_core s) l) (fun '(c, r) => Done (mkTPD (tpd_general s) c, r)).
+  obind (parse_timing_points (tpd_core s) l) (fun '(c, r) => Done (tpd_with_core s c, r)).
 
 Record TimingPointsV := mkTPV { tpv_general : GeneralState; tpv_control_points : ControlPoints }.
 
@@ -93,34 +112,48 @@ Definition decode_timing_points (lines : list str) : outcome TimingPointsV :=
 
 (* ---------- HitObjects ---------- *)
 
+(* HitObjectsState = { last_object, curve_points, vertices, events,
+   timing_points, difficulty, hit_objects, point_split }, field for field
+   ([point_split] is empty between calls and has no counterpart).
+   Model/HitObjectLine.v works on an [HOState] that carries the mode it reads
+   through `state.timing_points.mode()`; [hod_core] builds that view from the
+   current General part, [hod_with_core] stores the four fields
+   parse_hit_objects can write. *)
 Record HOD := mkHOD {
   hod_tp : TPD;
   hod_difficulty : DifficultyState;
   hod_events : EventsState;
-  hod_core : HOState }.
+  hod_last : option Z;                 (* last_object *)
+  hod_curve : list PCP;                (* curve_points *)
+  hod_vertices : list PCP;             (* vertices *)
+  hod_objects : list HitObject }.      (* hit_objects *)
 
-Definition core_with_mode (c : HOState) (mode : Z) : HOState :=
-  mkHO (ho_last c) (ho_curve c) (ho_vertices c) (ho_objects c) mode.
+Definition hod_core (s : HOD) : HOState :=
+  mkHO (hod_last s) (hod_curve s) (hod_vertices s) (hod_objects s) (g_mode (tpd_general (hod_tp s))).
+
+Definition hod_with_core (s : HOD) (c : HOState) : HOD :=
+  mkHOD (hod_tp s) (hod_difficulty s) (hod_events s)
+        (ho_last c) (ho_curve c) (ho_vertices c) (ho_objects c).
+
+Definition hod_with_tp (s : HOD) (tp : TPD) : HOD :=
+  mkHOD tp (hod_difficulty s) (hod_events s) (hod_last s) (hod_curve s) (hod_vertices s) (hod_objects s).
 
 Definition hod_create : HOD :=
-  mkHOD tpd_create difficulty_default events_default (ho_create (g_mode general_default)).
+  mkHOD tpd_create difficulty_default events_default None [] [] [].
 
 Definition hod_parse_general (s : HOD) (l : str) : HOD * res :=
   let '(tp, r) := tpd_parse_general (hod_tp s) l in
-  (mkHOD tp (hod_difficulty s) (hod_events s)
-         (core_with_mode (hod_core s) (g_mode (tpd_general tp))), r).
+  (hod_with_tp s tp, r).
 Definition hod_parse_difficulty (s : HOD) (l : str) : HOD * res :=
   let '(d, r) := parse_difficulty (hod_difficulty s) l in
-  (mkHOD (hod_tp s) d (hod_events s) (hod_core s), r).
+  (mkHOD (hod_tp s) d (hod_events s) (hod_last s) (hod_curve s) (hod_vertices s) (hod_objects s), r).
 Definition hod_parse_events (s : HOD) (l : str) : HOD * res :=
   let '(e, r) := parse_events (hod_events s) l in
-  (mkHOD (hod_tp s) (hod_difficulty s) e (hod_core s), r).
+  (mkHOD (hod_tp s) (hod_difficulty s) e (hod_last s) (hod_curve s) (hod_vertices s) (hod_objects s), r).
 Definition hod_parse_timing_points (s : HOD) (l : str) : outcome (HOD * res) :=
-  obind (tpd_parse_timing_points (hod_tp s) l) (fun '(tp, r) =>
-  Done (mkHOD tp (hod_difficulty s) (hod_events s) (hod_core s), r)).
+  obind (tpd_parse_timing_points (hod_tp s) l) (fun '(tp, r) => Done (hod_with_tp s tp, r)).
 Definition hod_parse_hit_objects (s : HOD) (l : str) : outcome (HOD * res) :=
-  obind (parse_hit_objects (hod_core s) l) (fun '(c, r) =>
-  Done (mkHOD (hod_tp s) (hod_difficulty s) (hod_events s) c, r)).
+  obind (parse_hit_objects (hod_core s) l) (fun '(c, r) => Done (hod_with_core s c, r)).
 
 Record HitObjectsV := mkHOV {
   hov_general : GeneralState;
@@ -139,7 +172,7 @@ Section WithDist.
     let c := tpv_control_points tp in
     obind (finish_hit_objects dist_of c (ev_breaks (hod_events s))
                               (d_slider_multiplier (hod_difficulty s)) (g_mode g)
-                              (ho_objects (hod_core s))) (fun objs =>
+                              (hod_objects s)) (fun objs =>
     Done (mkHOV g (hod_difficulty s) (hod_events s) c objs))).
 
   Definition ho_parsers : parsers (outcome HOD) :=
